@@ -34,6 +34,7 @@ func init() {
 		Explanation: `R19.1 fork-site access sets in ExtractZip: the worker goroutines (started in a loop, hence concurrent with each other) and the parent between fork and join share no location with a write and disjoint locksets (entry counters, progress, warned flag); ` +
 			`R19.2 the resume file (a pseudo-variable for the path in settings.ResumeFrom) is written by the workers only under a common lock, i.e. it has one ordered writer; ` +
 			`R19.3 every worker sends exactly one result on every path and the parent collects them; R19.4 the set of finished entries behind the marker is keyed by the entry index itself, not by a reduction of it; R19.5 no function of package archiver that changes the tree (removes, creates, renames) examines a path with os.Stat, which follows links - entries are examined with Lstat, so that re-extraction over an existing tree stays idempotent for links. ` +
+			`R19.6 functions of package archiver that walk a tree to archive it never refer to filepath.SkipDir / SkipAll; R16.8 (shared) workers are waited for only after they were released. ` +
 			`NOT decided: tree equality, tar, symlink/dir recreation, and whether the marker value is a contiguous high-water mark (value-level; a lock is necessary, not sufficient).`,
 		Assumptions: []string{
 			"state.Consumer and the OnEntryDone / OnUncompressedSizeKnown callbacks are assumed internally synchronised",
@@ -632,6 +633,33 @@ func runC19(c *core.Ctx) {
 	c.Rule("R19.4", "the done-set behind the resume marker is keyed by the entry index itself (no modulo/shift/mask)")
 	c.Rule("R19.5", "entries are examined without following links")
 	ruleNoFollow(c, "R19.5", "/archiver")
+	ruleNoJoinBeforeRelease(c, "R16.8", 1, 1, "/archiver")
+	c.Rule("R19.6", "the compressing walkers prune nothing")
+	{
+		nWalk := 0
+		for _, fn := range c.P.SrcFuncs() {
+			if fn.Parent() != nil || !strings.HasSuffix(core.PkgPathOf(fn), "/archiver") {
+				continue
+			}
+			walks := false
+			for _, f := range core.WithAnons(fn) {
+				if containsCall(f, callTo("path/filepath.Walk", "path/filepath.WalkDir", "io/fs.WalkDir")) {
+					walks = true
+				}
+			}
+			if !walks {
+				continue
+			}
+			nWalk++
+			pr := walkPrunes(fn)
+			o := c.Check(len(pr) == 0, "R19.6", core.FnName(fn), "no SkipDir / SkipAll in a function that walks the tree to archive it", fn.Pos(),
+				"every entry the walk reaches is offered to the archive", "the walk callback can answer SkipDir/SkipAll: for a directory its whole subtree, for anything else (a link, a file) every remaining entry of the containing directory is left out of the archive")
+			if len(pr) > 0 {
+				o.Pos = c.P.Pos(pr[0].Pos())
+			}
+		}
+		c.Floor("R19.6", "functions of package archiver that walk a tree", nWalk, 1)
+	}
 	ez := c.P.Fn("archiver", "ExtractZip")
 	if ez == nil {
 		c.Missing("R19.1", "archiver.ExtractZip", "not found")
@@ -797,6 +825,9 @@ func fixturesC15(fc *core.Ctx) map[string]bool {
 		if len(followingStats(fn)) > 0 {
 			rep[fn.Name()] = true
 		}
+		if len(walkPrunes(fn)) > 0 {
+			rep[fn.Name()] = true
+		}
 		core.Instrs(fn, func(in ssa.Instruction) {
 			if rg, ok := in.(*ssa.Range); ok {
 				if _, isMap := rg.X.Type().Underlying().(*types.Map); isMap && len(mapRangeProblems(fn, rg)) > 0 {
@@ -809,4 +840,26 @@ func fixturesC15(fc *core.Ctx) map[string]bool {
 		})
 	}
 	return rep
+}
+
+// walkPrunes lists the uses of the walk-pruning sentinels (filepath.SkipDir, fs.SkipAll ...) in fn's family.
+func walkPrunes(top *ssa.Function) []ssa.Instruction {
+	var out []ssa.Instruction
+	for _, f := range core.WithAnons(top) {
+		core.Instrs(f, func(in ssa.Instruction) {
+			ld, ok := in.(*ssa.UnOp)
+			if !ok || ld.Op != token.MUL {
+				return
+			}
+			g, ok := ld.X.(*ssa.Global)
+			if !ok || g.Pkg == nil {
+				return
+			}
+			switch g.Pkg.Pkg.Path() + "." + g.Name() {
+			case "path/filepath.SkipDir", "path/filepath.SkipAll", "io/fs.SkipDir", "io/fs.SkipAll":
+				out = append(out, in)
+			}
+		})
+	}
+	return out
 }
